@@ -519,6 +519,8 @@ func c16Build(prog []PStmt) *world {
 			case "new":
 				if s.Ty == "top" {
 					w.errs = append(w.errs, newAtTop(w.defs[s.F], s.Msg))
+				} else if s.Ty == "bottom" {
+					w.errs = append(w.errs, newAtBottom(w.defs[s.F], s.Msg))
 				} else {
 					w.errs = append(w.errs, w.defs[s.F].New(s.Msg))
 				}
